@@ -31,7 +31,9 @@ Op0 == [op |-> "", table |-> "", uuid |-> "", uuidName |-> "", where |-> <<>>, r
 
 IsName(u) == u # "" /\ SubSeq(u, 1, 1) = "@"
 MV(t, m, c) == ValJ(Col(t, c), m.cols[c])
-IsDef(t, m, c) == MV(t, m, c) = Default(Col(t, c))
+\* a boolean field is never taken for unset: Go cannot tell false from "not given" (ovsdb.IsDefaultValue)
+IsDef(t, m, c) == /\ MV(t, m, c) = Default(Col(t, c))
+                  /\ ~(Col(t, c).kind = "atom" /\ Col(t, c).key.t = "boolean")
 
 \* mapper.NewRow: with field pointers exactly those columns, whatever they hold; without, every column that
 \* does not hold its default value
@@ -138,8 +140,9 @@ ApiUpdate(call, rows) ==
 MutationValid(t, mu) ==
     LET c == Col(t, mu[1])
     IN  /\ c.mut
-        /\ \/ /\ mu[2] \in ArithMutators /\ c.kind \in {"atom", "set"} /\ c.key.t \in {"integer", "real"}
-              /\ c.kind = "atom" => Len(c.key.enum) = 0          \* "enums do not support mutation"
+        \* arithmetic on the elements of a set is not supported anywhere in the library (the engine refuses it as
+        \* well): the API refuses it; "enums do not support mutation"
+        /\ \/ /\ mu[2] \in ArithMutators /\ c.kind = "atom" /\ c.key.t \in {"integer", "real"} /\ Len(c.key.enum) = 0
               /\ mu[2] = "%=" => c.key.t = "integer"
               /\ mu[2] \in {"/=", "%="} => ~ArithDomainError(c.key.t, mu[2], mu[3])
            \/ mu[2] \in {"insert", "delete"} /\ c.kind \in {"set", "map"}
